@@ -339,6 +339,13 @@ func (en *DefaultEngine) runFirst(ctx context.Context) (bool, error) {
 	rs.AddLocalFunc("_first", en.first)
 	// the excursion to the first function keeps the page index of the session's position
 	idx := en.st.SizeIdx
+	if len(en.st.ExecPath) > state.MaxLevel {
+		// the navigation stack is full (Down would panic): the excursion is made from a copy that is
+		// one level shorter, and the session's own stack is put back afterwards
+		full := en.st.ExecPath
+		en.st.ExecPath = append([]string{}, full[:len(full)-1]...)
+		defer func() { en.st.ExecPath = full }()
+	}
 	en.st.Down("_first")
 	defer en.ca.Pop()
 	defer func() { en.st.SizeIdx = idx }()
